@@ -25,14 +25,23 @@ from vf.coqlit import cbool, clist, cN, cpair, cstr, cZ
 
 THEOREMS = [
     "C18_generated_code", "C18_generated_code_refines", "C18_generated_value_maps",
-    "C18_every_write_succeeds", "C18_tables_and_columns", "C18_rows_in_order", "C18_batch_independent",
+    "C18_generated_reader_lists_all_tables",
+    "C18_every_write_succeeds", "C18_tables_and_columns", "C18_rows_in_order", "C18_read_back_counts", "C18_batch_independent",
     "C18_other_connection_sees_commit_points", "C18_close_commits_all", "C18_value_fidelity", "C18_quoting_safe",
-    "C18_refuted_case_type_names", "C18_refuted_case_field_names", "C18_hyp_satisfiable",
+    "C18_refuted_case_type_names", "C18_refuted_case_field_names", "C18_refuted_reserved_name", "C18_hyp_satisfiable",
 ]
 
 BATCHES = [1, 2, 3, 7, 1000]
 FLUSH = "flush"
-KF_ID = "C18-case-insensitive-names"
+REOPEN = "reopen"       # close the writer, open a new SqliteWriter on the same file (same batch size)
+MARKS = (FLUSH, REOPEN)
+
+
+def is_write(ev):
+    return not isinstance(ev, str)
+
+KF_CASE = "C18-case-insensitive-names"
+KF_RESERVED = "C18-reserved-table-name"
 UTC = _dt.timezone.utc
 GENERATED = _dt.datetime(2020, 1, 2, 3, 4, 5, 678, tzinfo=UTC)
 
@@ -79,8 +88,8 @@ def build_records(hist):
     """-> list of FLUSH | (desc index, Record)"""
     out = []
     for ev in hist["events"]:
-        if ev == FLUSH:
-            out.append(FLUSH)
+        if not is_write(ev):
+            out.append(ev)
             continue
         D = descriptor(hist["descs"][ev["d"]])
         kw = {k: materialise(v) for k, v in ev["v"].items()}
@@ -93,7 +102,7 @@ def case_collision(hist):
     """two type names, or two field names of one type name, that differ only in ASCII case"""
     def fold(s):
         return "".join(chr(ord(c) + 32) if "A" <= c <= "Z" else c for c in s)
-    used = sorted({hist["descs"][ev["d"]]["name"] for ev in hist["events"] if ev != FLUSH})
+    used = sorted({hist["descs"][ev["d"]]["name"] for ev in hist["events"] if is_write(ev)})
     for i, a in enumerate(used):
         for b in used[i + 1:]:
             if a != b and fold(a) == fold(b):
@@ -101,7 +110,7 @@ def case_collision(hist):
     for n in used:
         fields = []
         for ev in hist["events"]:
-            if ev != FLUSH and hist["descs"][ev["d"]]["name"] == n:
+            if is_write(ev) and hist["descs"][ev["d"]]["name"] == n:
                 for _, f in hist["descs"][ev["d"]]["fields"]:
                     if f not in fields:
                         fields.append(f)
@@ -185,15 +194,37 @@ def _ident(rnd, first_upper_p=0.4):
     return first + rest
 
 
+# valid record type names that look like SQLite-internal names, LIKE patterns or SQL keywords
+ADVERSARIAL_TYPE_NAMES = [
+    "sqlite", "sqlite/table_row", "sqlite3/row", "SQLiteDump", "Sqlite/x", "sqlitex", "sqlite/sequence", "sqlite3",
+    "SQLITE/STAT1", "sqlite0_a", "select", "table", "index", "Order/by", "group", "values", "where/x", "master", "main/t",
+    "temp/x", "pragma", "a_b", "a/b_c", "x_", "percent/p_", "like/escape", "null", "rowid/oid", "t/x_y_z",
+]
+
+
+def reserved_name(hist):
+    """a record type name that begins with sqlite_ (ASCII-case-insensitive): SQLite keeps such table names for itself"""
+    for ev in hist["events"]:
+        if is_write(ev) and hist["descs"][ev["d"]]["name"].lower().startswith("sqlite_"):
+            return hist["descs"][ev["d"]]["name"]
+    return None
+
+
 def gen_history(rnd, max_events=22):
+    import keyword
     from flow.record.base import RE_VALID_RECORD_TYPE_NAME, is_valid_field_name
     n_names = rnd.choice([1, 1, 2, 2, 3])
     descs = []
     names = []
     while len(names) < n_names:
-        nm = "/".join(_ident(rnd) for _ in range(rnd.choice([1, 2, 2, 3])))
+        if rnd.random() < 0.3:
+            nm = rnd.choice(ADVERSARIAL_TYPE_NAMES)
+        else:
+            nm = "/".join(_ident(rnd) for _ in range(rnd.choice([1, 2, 2, 3])))
         if not RE_VALID_RECORD_TYPE_NAME.match(nm) or nm.lower() in [x.lower() for x in names]:
             continue
+        if nm.lower().startswith("sqlite_") or any(keyword.iskeyword(seg) for seg in nm.split("/")):
+            continue            # reserved by SQLite (known finding, has its own witnesses) / not a usable class name
         names.append(nm)
     for nm in names:
         ftypes = {}           # field name -> type, fixed for this type name
@@ -230,10 +261,15 @@ def gen_history(rnd, max_events=22):
     n = rnd.randint(3, max_events)
     events = []
     # bias: descriptors tend to appear in creation order so that evolution happens mid-history
-    weights = [1.0] * len(descs)
+    # several writer sessions on the same file: frequent in "session mode", rare otherwise
+    p_reopen = 0.18 if rnd.random() < 0.35 else 0.03
     for k in range(n):
-        if rnd.random() < 0.07:
+        x = rnd.random()
+        if x < 0.07:
             events.append(FLUSH)
+            continue
+        if x < 0.07 + p_reopen and k > 0:
+            events.append(REOPEN)
             continue
         limit = max(1, min(len(descs), 1 + (k * (len(descs) + 1)) // max(1, n)))
         di = rnd.randrange(limit) if rnd.random() < 0.7 else rnd.randrange(len(descs))
@@ -286,6 +322,8 @@ def classify_exc(e):
         return "EOverflow"
     if isinstance(e, sqlite3.OperationalError) and "duplicate column name" in str(e):
         return "EDuplicateColumn"
+    if isinstance(e, sqlite3.OperationalError) and "reserved for internal use" in str(e):
+        return "EReservedName"
     if isinstance(e, ZeroDivisionError):
         return "EZeroDivision"
     return "other:%s: %s" % (type(e).__name__, e)
@@ -304,6 +342,9 @@ def run_impl(recs, b, path):
             try:
                 if ev == FLUSH:
                     w.flush()
+                elif ev == REOPEN:
+                    w.close()
+                    w = SqliteWriter(path, batch_size=b)
                 else:
                     w.write(ev[1])
             except Exception as e:  # noqa
@@ -344,6 +385,8 @@ def spec_last_commit(events, b):
     for k, ev in enumerate(events):
         if ev == FLUSH:
             lc = k + 1
+        elif ev == REOPEN:
+            seen, cnt, lc = set(), 0, k + 1     # close commits everything; the new writer starts afresh
         else:
             if ev[1]._desc not in seen:
                 seen.add(ev[1]._desc)
@@ -358,7 +401,7 @@ def spec_last_commit(events, b):
 def counts_of(recs):
     c = {}
     for ev in recs:
-        if ev != FLUSH:
+        if is_write(ev):
             n = ev[1]._desc.name
             c[n] = c.get(n, 0) + 1
     return c
@@ -415,7 +458,7 @@ def property_oracle(hist, recs, b, run, readback):
             return "after close table %r holds %d rows, %d records were written" % (n, len(rows), want_counts[n])
         want_cols = []
         for ev in events:
-            if ev != FLUSH and ev[1]._desc.name == n:
+            if is_write(ev) and ev[1]._desc.name == n:
                 for f in ev[1]._desc.get_all_fields():
                     if f not in want_cols:
                         want_cols.append(f)
@@ -426,7 +469,7 @@ def property_oracle(hist, recs, b, run, readback):
         if sorted(readback) != sorted(want_counts):
             return "SqliteReader yields types %s, written %s" % (sorted(readback), sorted(want_counts))
         for n, back in readback.items():
-            origs = [ev[1] for ev in events if ev != FLUSH and ev[1]._desc.name == n]
+            origs = [ev[1] for ev in events if is_write(ev) and ev[1]._desc.name == n]
             if len(back) != len(origs):
                 return "SqliteReader yields %d records of %r, %d were written" % (len(back), n, len(origs))
             for i, (o, r) in enumerate(zip(origs, back)):
@@ -500,6 +543,8 @@ def cevents(recs):
     for ev in recs:
         if ev == FLUSH:
             evs.append("EFlush")
+        elif ev == REOPEN:
+            evs.append("EReopen")
         else:
             di, r = ev
             evs.append("EWrite {| r_desc := d%d; r_vals := %s |}" % (di, clist(classify_pval(v) for v in r._asdict().values())))
@@ -512,7 +557,7 @@ def cobs(obs):
         if kind == "c":
             items.append("OC %s" % clist(cpair(cname(n), cN(c)) for n, c in x))
         else:
-            items.append("OE %s" % (x if x in ("EOverflow", "EDuplicateColumn", "EZeroDivision") else "EUnsupported"))
+            items.append("OE %s" % (x if x in ("EOverflow", "EDuplicateColumn", "EZeroDivision", "EReservedName") else "EUnsupported"))
     return clist(items)
 
 
@@ -549,7 +594,8 @@ Definition same_set {A} (eqb : A -> A -> bool) (a b : list A) : bool :=
   Nat.eqb (List.length a) (List.length b) && forallb (fun x => existsb (eqb x) b) a.
 Definition err_eqb (a b : err) : bool :=
   match a, b with
-  | EDuplicateColumn, EDuplicateColumn | EOverflow, EOverflow | EZeroDivision, EZeroDivision => true
+  | EDuplicateColumn, EDuplicateColumn | EOverflow, EOverflow | EZeroDivision, EZeroDivision
+  | EReservedName, EReservedName => true
   | _, _ => false
   end.
 Definition obs_eqb (a b : obs) : bool :=
@@ -567,7 +613,11 @@ Fixpoint trace (w : wstate) (evs : list event) : list obs :=
 Definition chk_trace (b : N) (evs : list event) (o : list obs) : bool :=
   match init C b with Ok w => list_eqb obs_eqb (trace w evs) o | Err _ => false end.
 Definition gen_step (w : wstate) (e : event) : res wstate :=
-  match e with EWrite r => code_write_fn C writer_code w r | EFlush => code_flush_fn C writer_code w end.
+  match e with
+  | EWrite r => code_write_fn C writer_code w r
+  | EFlush => code_flush_fn C writer_code w
+  | EReopen => code_reopen C writer_code w
+  end.
 Fixpoint gen_trace (w : wstate) (evs : list event) : list obs :=
   match evs with
   | [] => []
@@ -691,13 +741,46 @@ def impl_verdict(hist, recs, runs, readback):
     return None, None
 
 
+def _w(name, fields, **vals):
+    return {"name": name, "fields": fields}
+
+
+def _ev(d, **vals):
+    return {"d": d, "v": {k: ({"t": "i", "v": str(v)} if isinstance(v, int) else {"t": "s", "v": v}) for k, v in vals.items()}}
+
+
+# histories that must HOLD on every run (each is also a correspondence case); they pin down classes of input that a
+# purely random generator reaches only sometimes: descriptor evolution across writer sessions on one file, type
+# names that resemble SQLite-internal names / LIKE patterns / SQL keywords
+REGRESSION = [
+    ("evolution across two writer sessions",
+     {"descs": [_w("demo/evolving", [["string", "name"], ["varint", "num"]]),
+                _w("demo/evolving", [["string", "name"], ["varint", "num"], ["string", "extra"]])],
+      "events": [_ev(0, name="old0", num=0), _ev(0, name="old1", num=1), _ev(0, name="old2", num=2), _ev(0, name="old3", num=3), REOPEN,
+                 _ev(1, name="new0", num=100, extra="x0"), _ev(1, name="new1", num=101, extra="x1"), _ev(0, name="old4", num=4)]}),
+    ("three sessions, second type appears in the second, first type evolves in the third",
+     {"descs": [_w("s/a", [["string", "p"]]), _w("s/b", [["varint", "q"]]), _w("s/a", [["varint", "r"], ["string", "p"]])],
+      "events": [_ev(0, p="1"), REOPEN, _ev(1, q=2), _ev(0, p="3"), FLUSH, REOPEN, REOPEN, _ev(2, r=4, p="5"), _ev(1, q=6)]}),
+    ("type names that begin with sqlite",
+     {"descs": [_w("sqlite/table_row", [["string", "a"]]), _w("sqlite3/row", [["varint", "n"]]), _w("SQLiteDump", [["string", "a"]]),
+                _w("sqlite", [["string", "a"]])],
+      "events": [_ev(0, a="1"), _ev(1, n=2), _ev(2, a="3"), _ev(3, a="4"), _ev(0, a="5")]}),
+    ("type names that are SQL keywords or contain the LIKE wildcard _",
+     {"descs": [_w("select", [["string", "from"]]), _w("table", [["string", "index"]]), _w("x_", [["string", "a_"]]),
+                _w("Order/by", [["varint", "group"]])],
+      "events": [_ev(0, **{"from": "1"}), _ev(1, index="2"), _ev(2, a_="3"), _ev(3, group=4), _ev(0, **{"from": "5"})]}),
+]
+
 WITNESSES = [
-    ("type names t/x and T/X", {"descs": [{"name": "t/x", "fields": [["string", "a"]]}, {"name": "T/X", "fields": [["string", "a"], ["varint", "n"]]}],
+    ("type names t/x and T/X", KF_CASE, {"descs": [{"name": "t/x", "fields": [["string", "a"]]}, {"name": "T/X", "fields": [["string", "a"], ["varint", "n"]]}],
                                 "events": [{"d": 0, "v": {"a": {"t": "s", "v": "1"}}}, {"d": 1, "v": {"a": {"t": "s", "v": "2"}, "n": {"t": "i", "v": "5"}}}]}),
-    ("field names a and A in one descriptor", {"descs": [{"name": "t/y", "fields": [["string", "a"], ["string", "A"]]}],
+    ("field names a and A in one descriptor", KF_CASE, {"descs": [{"name": "t/y", "fields": [["string", "a"], ["string", "A"]]}],
                                                "events": [{"d": 0, "v": {"a": {"t": "s", "v": "1"}, "A": {"t": "s", "v": "2"}}}]}),
-    ("field A added to a type that has field a", {"descs": [{"name": "t/z", "fields": [["string", "a"]]}, {"name": "t/z", "fields": [["string", "A"]]}],
-                                                  "events": [{"d": 0, "v": {"a": {"t": "s", "v": "1"}}}, {"d": 1, "v": {"A": {"t": "s", "v": "2"}}}]}),
+    ("field A added to a type that has field a", KF_CASE, {"descs": [{"name": "t/z", "fields": [["string", "a"]]}, {"name": "t/z", "fields": [["string", "A"]]}],
+                                                           "events": [{"d": 0, "v": {"a": {"t": "s", "v": "1"}}}, {"d": 1, "v": {"A": {"t": "s", "v": "2"}}}]}),
+    ("type name sqlite_stat", KF_RESERVED, {"descs": [_w("sqlite_stat", [["string", "a"]])], "events": [_ev(0, a="1")]}),
+    ("type name SQLite_Seq/x after another type", KF_RESERVED,
+     {"descs": [_w("t/ok", [["string", "a"]]), _w("SQLite_Seq/x", [["string", "a"]])], "events": [_ev(0, a="1"), _ev(1, a="2")]}),
 ]
 
 # outside the claim (not 64-bit): the model predicts OverflowError and the implementation must agree
@@ -710,16 +793,16 @@ OUTSIDE = [
 
 
 def prune_descs(hist):
-    used = sorted({ev["d"] for ev in hist["events"] if ev != FLUSH})
+    used = sorted({ev["d"] for ev in hist["events"] if is_write(ev)})
     remap = {d: i for i, d in enumerate(used)}
     return {"descs": [hist["descs"][d] for d in used],
-            "events": [ev if ev == FLUSH else {"d": remap[ev["d"]], "v": ev["v"]} for ev in hist["events"]]}
+            "events": [ev if not is_write(ev) else {"d": remap[ev["d"]], "v": ev["v"]} for ev in hist["events"]]}
 
 
 def shrink(work, hist, budget=150):
     """greedy removal of events (then of field values) while the property still fails on the implementation"""
     def fails(h):
-        if case_collision(h):
+        if case_collision(h) or reserved_name(h):
             return False
         try:
             recs, runs, readback = run_history(work, h, "shrink")
@@ -739,7 +822,7 @@ def shrink(work, hist, budget=150):
                 cur, changed = cand, True
     cur = prune_descs(cur)
     for i, ev in enumerate(cur["events"]):            # unset field values that do not matter
-        if ev == FLUSH:
+        if not is_write(ev):
             continue
         for f in list(ev["v"]):
             if budget <= 0 or ev["v"][f] == {"t": "n"}:
@@ -753,10 +836,11 @@ def shrink(work, hist, budget=150):
 
 
 def report_failure(ctx, kf, hist, recs, runs, readback, why, batch, kind, extra=None):
-    coll = case_collision(hist)
-    if coll and kf:
-        ctx.known_finding(kf[0]["id"], kf[0]["what"])
-        return False
+    for fid, hit in ((KF_CASE, case_collision(hist)), (KF_RESERVED, reserved_name(hist))):
+        f = [x for x in kf if x["id"] == fid]
+        if hit and f:
+            ctx.known_finding(f[0]["id"], f[0]["what"])
+            return False
     if kind == "history":
         small = shrink(ctx.work, hist)
         if small != hist:
@@ -781,9 +865,9 @@ def search(ctx, reason):
     rnd = random.Random(ctx.seed)
     t_end = time.time() + (50 if ctx.tier == "quick" else 400)
     k = 0
-    fixed = [h for _, h in WITNESSES]
+    fixed = [h for _, h in REGRESSION]
     while time.time() < t_end and k < (400 if ctx.tier == "quick" else 4000):
-        hist = gen_history(rnd, max_events=14)
+        hist = fixed[k] if k < len(fixed) else gen_history(rnd, max_events=14)
         k += 1
         try:
             recs, runs, readback = run_history(ctx.work, hist, "s%d" % k)
@@ -803,7 +887,7 @@ def run(ctx):
     kf = core.known_for("C18")
     ctx.coverage["rule"] = (
         "a case = one generated history (1-4 descriptors over 1-3 type names incl. same-name descriptors that gain / reorder "
-        "fields, valid mixed-case case-distinct names incl. SQL keywords, 3-22 events incl. explicit flushes, values: text with "
+        "fields, valid mixed-case case-distinct names incl. SQL keywords and names that resemble SQLite-internal names / LIKE patterns, 3-22 events incl. explicit flushes and reopen events (several writer sessions on one file), values: text with "
         "quotes/unicode/NUL, ints at the 64-bit boundaries, finite floats by bit pattern, bytes, timestamps with offsets, None, "
         "other types as text) run with ONE batch size of {1,2,3,7,1000}; observed through a second sqlite3 connection after every "
         "event and after close and read back with SqliteReader; distinct = distinct (history, batch size); non-trivial = the "
@@ -813,7 +897,7 @@ def run(ctx):
         "SQLite (sqlite3 module, isolation_level=None) is MODELLED, not verified: committed tables + pending statements of the "
         "open transaction; COMMIT moves them; another connection reads only committed state; DDL is transactional; closing a "
         "connection rolls an open transaction back; identifiers compare ASCII-case-insensitively; column affinity as in "
-        "datatype3.html for the combinations the writer produces (int into TEXT column -> decimal text; -0.0 in a REAL column "
+        "datatype3.html for the combinations the writer produces; table names beginning with sqlite_ are refused; the database file persists between writer sessions (int into TEXT column -> decimal text; -0.0 in a REAL column "
         "-> 0.0; NaN bound as NULL; int outside 64 bits -> OverflowError) -- validated by execution on every case",
         "str(value) of non-basic field values and datetime.isoformat() are inputs of the model (computed by CPython); "
         "datetime.fromisoformat(isoformat(t)) == t is checked on every timestamp read back, not proved",
@@ -835,24 +919,30 @@ def run(ctx):
         recs, runs, readback = run_history(ctx.work, hist, "h%d" % len(cases))
         cases.append(history_case(hist, recs, runs, readback))
         metas.append(dict(hist=hist, recs=recs, runs=runs, readback=readback, label=label))
-        nwrites = sum(1 for e in hist["events"] if e != FLUSH)
+        nwrites = sum(1 for e in hist["events"] if is_write(e))
         for b in BATCHES:
             ctx.count_case((hist_digest(hist), b), nontrivial=nwrites >= 2)
         return metas[-1]
 
     # 1. known-finding witnesses and out-of-claim inputs: the implementation must still behave as the model predicts
-    for label, hist in WITNESSES:
+    for label, fid, hist in WITNESSES:
         m = add(hist, "witness: " + label)
         why, b = impl_verdict(hist, m["recs"], m["runs"], m["readback"])
-        if why and kf:
-            ctx.known_finding(kf[0]["id"], kf[0]["what"])
-        elif not why:
+        f = [x for x in kf if x["id"] == fid]
+        if why and f:
+            ctx.known_finding(f[0]["id"], f[0]["what"])
+        elif why:
+            ctx.violation("witness %s fails (%s) and known_findings.d/C18.json does not list %s" % (label, why, fid),
+                          dict(kind="history", history=hist, batch=b, what_fails=why))
+        else:
             ctx.notes.append("known finding no longer reproduces on witness: " + label)
     for label, hist in OUTSIDE:
         m = add(hist, "outside the claim: " + label)
         if not all(m["runs"][b]["error"] == "EOverflow" for b in BATCHES):
             ctx.notes.append("out-of-range integer no longer raises OverflowError: " + label)
     n_fixed = len(cases)
+    for label, hist in REGRESSION:
+        add(hist, "regression: " + label)
 
     # 2. generated histories
     for i in range(n_hist):
